@@ -612,8 +612,9 @@ namespace c07
       VF_CHECK(L.divg(R.defF, d0), "S2 diverged but final defect " << (double)R.defF << " is within div_abs=" << (double)L.div_abs << " / div_rel*d0=" << (double)(L.div_rel * d0));
       break;
     case (int)Status::aborted:
-      // non-finite defect / iterate, or the documented breakdown exits of BiCGStab (omega / beta not finite)
-      VF_CHECK(!std::isfinite((double)R.defF) || !std::isfinite((double)d0) || !x_finite || kind == K_BICGSTAB,
+      // non-finite defect / iterate, or the documented breakdown exits of BiCGStab (omega / beta not finite); BiCGStab(l) is
+      // admitted too so that a breakdown test (see findings, proposed patch) is not reported as untruthful
+      VF_CHECK(!std::isfinite((double)R.defF) || !std::isfinite((double)d0) || !x_finite || kind == K_BICGSTAB || kind == K_BICGSTABL,
         "S2 aborted although defect " << (double)R.defF << " and iterate are finite (no preconditioner failure possible)");
       break;
     }
